@@ -1349,6 +1349,23 @@ def replay(payload):
                     bad = bad or float(getattr(Unit, f"{a}2{b}")) != v
                 except Exception:  # noqa
                     pass
+        elif part == "derivative-lagrange":
+            from midgard.math import interpolation as ip
+            x = np.array([_hx(v) for v in c["x"]]); xn = np.array([_hx(v) for v in c["xn"]]); tail = tuple(c.get("tail", []))
+            y = np.array([_hx(v) for v in c["y"]]).reshape((len(x),) + tail)
+            dx, w = _hx(c["dx"]), c["w"]
+            yn, yd = ip.interpolate_with_derivative(x, y, xn, kind="lagrange", dx=dx, window=w, bounds_error=c["bounds_error"], assume_sorted=c["sorted_flag"])
+            print("values", np.asarray(yn).ravel()[:4], "derivative", np.asarray(yd).ravel()[:4])
+            bad = False
+            if "coeffs" in c:      # data on a parabola in t = (x - min x) / span: the derivative is exact
+                c0, c1, c2 = c["coeffs"]
+                span = float(x.max() - x.min())
+                want = (c1 + 2 * c2 * (xn - x.min()) / span) / span
+                got = np.asarray(yd, dtype=float).reshape(len(xn), -1)
+                err = np.min(np.max(np.abs(got - want[:, None]), axis=0))     # the component the coefficients belong to
+                print("expected derivative", want[:4], "error", err)
+                gap = float(np.min(np.diff(np.sort(x))))
+                bad = not err <= 1e-9 * w * (1 + span / gap) ** 2 * (abs(c0) + abs(c1) + abs(c2)) / abs(dx) / span + 4 * np.spacing(np.abs(x).max()) * np.max(np.abs(want)) / abs(dx)
         elif part in KINDS or part == "derivative":
             kind = c.get("kind", part)
             x = np.array([_hx(v) for v in c["x"]])
